@@ -7,6 +7,7 @@ import (
 	"os"
 	"os/exec"
 	"strconv"
+	"sync"
 	"time"
 
 	"verif/mc"
@@ -36,7 +37,7 @@ func runNativeOnce(sc *Scenario) (string, bool) {
 	}()
 	select {
 	case <-done:
-	case <-time.After(3 * time.Second):
+	case <-time.After(1500 * time.Millisecond):
 		if env.cancel != nil {
 			env.cancel()
 		}
@@ -70,25 +71,43 @@ func cmdNative(args []string) int {
 	tier := args[1]
 	runs, _ := strconv.Atoi(args[2])
 	scs := p.Scenarios(tier)
-	enc := json.NewEncoder(os.Stdout)
-	for _, i := range filterScenarios(scs) {
-		sc := scs[i]
-		if sc.Cancel == "deadline" {
-			continue // real timers are not driven natively
-		}
-		ns := nativeScen{Index: i, Outcomes: map[string]int64{}}
-		for r := 0; r < runs; r++ {
-			o, ok := runNativeOnce(sc)
-			if !ok {
-				ns.Timeouts++
-				if ns.Timeouts >= 2 {
-					break
+	idx := filterScenarios(scs)
+	results := make([]*nativeScen, len(scs))
+	jobs := make(chan int, len(idx))
+	for _, i := range idx {
+		jobs <- i
+	}
+	close(jobs)
+	var wg sync.WaitGroup
+	for w := 0; w < 8; w++ {
+		wg.Add(1)
+		go func() {
+			defer wg.Done()
+			for i := range jobs {
+				sc := scs[i]
+				if sc.Cancel == "deadline" {
+					continue // real timers are not driven natively
 				}
-				continue
+				ns := &nativeScen{Index: i, Outcomes: map[string]int64{}}
+				for r := 0; r < runs; r++ {
+					o, ok := runNativeOnce(sc)
+					if !ok {
+						// a script that blocks by design (or a deadlock): nothing to compare
+						ns.Timeouts++
+						break
+					}
+					ns.Outcomes[o]++
+				}
+				results[i] = ns
 			}
-			ns.Outcomes[o]++
+		}()
+	}
+	wg.Wait()
+	enc := json.NewEncoder(os.Stdout)
+	for _, ns := range results {
+		if ns != nil {
+			enc.Encode(ns)
 		}
-		enc.Encode(ns)
 	}
 	return 0
 }
